@@ -220,8 +220,6 @@ Qed.
 (* ---------- the creation step of the transfer model ---------- *)
 From Trzsz Require Import Model.Transfer.
 
-Definition tr_p_id (p : tr_npayload) : option Z := match p with TrJson s _ => Some (s_id s) | TrPlain _ => None end.
-Definition tr_p_head (p : tr_npayload) : name := match p with TrJson s _ => hd [] (s_rel s) | TrPlain nm => nm end.
 
 Lemma tr_create_result c d p x st ln st' :
   tr_p_archive p = false -> map_good (st_map st) ->
@@ -319,32 +317,21 @@ Variable c : tr_cfg.
 Variable d : path.
 Variable f0 : fs.
 
-(* where an entry lands below its top-level name, what is there, and its name as sent *)
-Definition tr_tail (e : tr_entry) : list name := tr_p_tail (tr_payload c e).
-Definition tr_node (e : tr_entry) : node := if te_isdir e then Dir else File (te_data e).
-Definition tr_key (e : tr_entry) : name := tr_p_head (tr_payload c e).
 
-Lemma tail_json e : tr_json c = true -> tr_tail e = tl (te_rel e).
+Lemma tail_json e : tr_json c = true -> tr_tail c e = tl (te_rel e).
 Proof. unfold tr_tail, tr_payload. intros ->. reflexivity. Qed.
-Lemma tail_plain e : tr_json c = false -> tr_tail e = [].
+Lemma tail_plain e : tr_json c = false -> tr_tail c e = [].
 Proof. unfold tr_tail, tr_payload. intros ->. reflexivity. Qed.
 Lemma pid_json e : tr_json c = true -> tr_p_id (tr_payload c e) = Some (te_id e).
 Proof. unfold tr_payload. intros ->. reflexivity. Qed.
 Lemma pid_plain e : tr_json c = false -> tr_p_id (tr_payload c e) = None.
 Proof. unfold tr_payload. intros ->. reflexivity. Qed.
 
-(* the source list as checkPathsReadable / checkDuplicateNames leave it *)
-Definition tr_wf (es : list tr_entry) : Prop :=
-  (tc_overwrite c = false -> tr_json c = true ->
-     NoDup (map (fun e => (te_id e, tl (te_rel e))) es) /\
-     (forall pre e post, es = pre ++ e :: post -> tl (te_rel e) <> [] -> exists e', In e' pre /\ te_id e' = te_id e)) /\
-  (tc_overwrite c = true -> NoDup (map (fun e => tr_key e :: tr_tail e) es)).
-
 Definition Inv (st : state) (done : list (tr_entry * name)) : Prop :=
   chain (st_fs st) d /\ map_good (st_map st) /\
   (forall q, lookup f0 q <> None -> lookup (st_fs st) q <> None) /\
-  (forall e ln, In (e, ln) done -> lookup (st_fs st) (d ++ ln :: tr_tail e) = Some (tr_node e)) /\
-  (tc_overwrite c = true -> forall e ln, In (e, ln) done -> ln = tr_key e) /\
+  (forall e ln, In (e, ln) done -> lookup (st_fs st) (d ++ ln :: tr_tail c e) = Some (tr_node e)) /\
+  (tc_overwrite c = true -> forall e ln, In (e, ln) done -> ln = tr_key c e) /\
   (tc_overwrite c = false -> forall e ln, In (e, ln) done ->
      lookup f0 (d ++ [ln]) = None /\ lookup (st_fs st) (d ++ [ln]) <> None) /\
   (tc_overwrite c = false -> tr_json c = true ->
@@ -363,7 +350,7 @@ Qed.
 
 Lemma inv_step st done e ln st' :
   Inv st done ->
-  (tc_overwrite c = true -> forall e' ln', In (e', ln') done -> tr_key e' :: tr_tail e' <> tr_key e :: tr_tail e) ->
+  (tc_overwrite c = true -> forall e' ln', In (e', ln') done -> tr_key c e' :: tr_tail c e' <> tr_key c e :: tr_tail c e) ->
   (tc_overwrite c = false -> tr_json c = true -> forall e' ln', In (e', ln') done -> te_id e' = te_id e ->
      tl (te_rel e') <> tl (te_rel e)) ->
   (tc_overwrite c = false -> tr_json c = true -> (forall e' ln', In (e', ln') done -> te_id e' <> te_id e) ->
@@ -381,7 +368,7 @@ Proof.
   destruct (tr_create_result _ _ _ _ _ _ _ Ha Hmg E1) as (G1 & M1 & T1 & L1 & P1 & N1 & I1).
   assert (Hfin : exists x, tr_create c d (tr_payload c e) x st = (NOk ln, st') /\ l1 = ln /\
             (te_isdir e = false -> x = te_data e /\
-               (tr_json_names c = true -> old_content (st_fs st) (d ++ ln :: tr_tail e) = []))).
+               (tr_json_names c = true -> old_content (st_fs st) (d ++ ln :: tr_tail c e) = []))).
   { destruct (te_isdir e) eqn:Hd.
     - inversion Hs; subst. exists []. split; [exact E1|]. split; [reflexivity|]. discriminate.
     - destruct (tr_json_names c && (0 <? tr_target_size d l1 (tr_payload c e) st1)) eqn:E2; [discriminate|].
@@ -390,12 +377,12 @@ Proof.
       exists (te_data e). split; [exact E3|]. split; [reflexivity|]. intros _. split; [reflexivity|].
       intro Ej. rewrite Ej in E2. cbn [andb] in E2. apply N.ltb_ge in E2. apply N.le_0_r in E2.
       unfold tr_target_size, tr_leaf in E2. rewrite join_good in E2 by (constructor; assumption).
-      fold (tr_tail e) in E2, L1. rewrite L1, Hisdir, Ej in E2. cbn [write0 app skipn length] in E2.
-      unfold tr_blen in E2. destruct (old_content (st_fs st) (d ++ ln :: tr_tail e)); [reflexivity | discriminate]. }
+      fold (tr_tail c e) in E2, L1. rewrite L1, Hisdir, Ej in E2. cbn [write0 app skipn length] in E2.
+      unfold tr_blen in E2. destruct (old_content (st_fs st) (d ++ ln :: tr_tail c e)); [reflexivity | discriminate]. }
   destruct Hfin as (x & Ex & -> & Hx). clear E1 G1 M1 T1 L1 P1 N1 I1 st1 Hs.
   destruct (tr_create_result _ _ _ _ _ _ _ Ha Hmg Ex) as (G & M & T & L & P & Nc & _).
-  fold (tr_tail e) in L, P, T. rewrite Hisdir in L.
-  set (leaf := d ++ ln :: tr_tail e) in *.
+  fold (tr_tail c e) in L, P, T. rewrite Hisdir in L.
+  set (leaf := d ++ ln :: tr_tail c e) in *.
   (* the node at the leaf *)
   assert (Hleaf : lookup (st_fs st') leaf = Some (tr_node e)).
   { rewrite L. unfold tr_node. destruct (te_isdir e); [reflexivity|]. destruct (Hx eq_refl) as (-> & Ho).
@@ -404,11 +391,11 @@ Proof.
   assert (Hpres : forall q, lookup (st_fs st) q <> None -> lookup (st_fs st') q <> None).
   { intros q Hq. destruct (path_eq_dec q leaf) as [->|Hne]; [rewrite Hleaf; discriminate | rewrite P; assumption]. }
   (* the new leaf differs from every earlier one *)
-  assert (Hdist : forall e' ln', In (e', ln') done -> d ++ ln' :: tr_tail e' <> leaf).
+  assert (Hdist : forall e' ln', In (e', ln') done -> d ++ ln' :: tr_tail c e' <> leaf).
   { intros e' ln' Hin Heq. subst leaf. apply path_cons_inj in Heq as [-> Ht].
     unfold name_choice in Nc. cbn [tr_names_cfg overwrite] in Nc.
     destruct (tc_overwrite c) eqn:Eo.
-    - destruct Nc as [Hl _]. apply (Dow eq_refl e' ln Hin). rewrite <- (Hkey eq_refl e' ln Hin), Ht. fold (tr_key e) in Hl. congruence.
+    - destruct Nc as [Hl _]. apply (Dow eq_refl e' ln Hin). rewrite <- (Hkey eq_refl e' ln Hin), Ht. fold (tr_key c e) in Hl. congruence.
     - destruct (tr_json c) eqn:Ej.
       + rewrite (pid_json e Ej) in Nc. destruct (Hmap eq_refl eq_refl) as (Hm1 & Hm2 & Hm3).
         destruct (map_get (st_map st) (te_id e)) as [v|] eqn:Em.
@@ -421,7 +408,7 @@ Proof.
         destruct (Hfresh eq_refl e' ln Hin) as [_ Hp]. congruence. }
   unfold Inv. split; [|split; [exact M|split; [intros q Hq; apply Hpres, Hmono, Hq|]]].
   { intros a b Hab. pose proof (Hc a b Hab) as Hg. unfold get in Hg |- *. destruct a as [|x0 a]; [reflexivity|].
-    rewrite P; [exact Hg | congruence | apply (chain_not_leaf (st_fs st) ln (tr_tail e) _ b Hc Hab)]. }
+    rewrite P; [exact Hg | congruence | apply (chain_not_leaf (st_fs st) ln (tr_tail c e) _ b Hc Hab)]. }
   split.
   { intros e' ln' Hin. apply in_app_or in Hin as [Hin|[Hin|[]]].
     - rewrite P; [apply Hcont; exact Hin | rewrite (Hcont _ _ Hin); discriminate | apply (Hdist _ _ Hin)].
@@ -479,7 +466,7 @@ Proof.
 Qed.
 
 Lemma spec_inv : forall es done st names per all stf,
-  Inv st done -> tr_wf (map fst done ++ es) ->
+  Inv st done -> tr_wf c (map fst done ++ es) ->
   tr_spec c d es st names = Some (per, all, stf) ->
   Inv stf (done ++ combine es per) /\ length per = length es /\ all = fold_left tr_add_name per names.
 Proof.
@@ -498,7 +485,7 @@ Proof.
         destruct (tl (te_rel e)) eqn:Et; [reflexivity|]. exfalso.
         destruct (Hf (map fst done) e es eq_refl) as (e' & Hin & Hid); [rewrite Et; discriminate|].
         apply in_map_iff in Hin as ([e'' ln''] & <- & Hin). apply (Hnone _ _ Hin Hid). }
-    assert (Hwf1 : tr_wf (map fst (done ++ [(e, ln)]) ++ es)).
+    assert (Hwf1 : tr_wf c (map fst (done ++ [(e, ln)]) ++ es)).
     { rewrite map_app, <- app_assoc. exact Hwf. }
     destruct (IH _ _ _ _ _ _ HI1 Hwf1 Er) as (A & B & C).
     rewrite <- app_assoc in A. cbn [combine length fold_left]. split; [exact A|]. split; [congruence | exact C].
@@ -512,11 +499,11 @@ Proof.
   intros _ _. split; [intros ? ? Hf; destruct Hf|]. split; intros; discriminate.
 Qed.
 
-Theorem spec_tree es per all stf : stat f0 d = SFound Dir -> tr_wf es ->
+Theorem spec_tree es per all stf : stat f0 d = SFound Dir -> tr_wf c es ->
   tr_spec c d es (init_state f0) [] = Some (per, all, stf) ->
   length per = length es /\ all = fold_left tr_add_name per [] /\
-  (forall e ln, In (e, ln) (combine es per) -> lookup (st_fs stf) (d ++ ln :: tr_tail e) = Some (tr_node e)) /\
-  (tc_overwrite c = true -> forall e ln, In (e, ln) (combine es per) -> ln = tr_key e) /\
+  (forall e ln, In (e, ln) (combine es per) -> lookup (st_fs stf) (d ++ ln :: tr_tail c e) = Some (tr_node e)) /\
+  (tc_overwrite c = true -> forall e ln, In (e, ln) (combine es per) -> ln = tr_key c e) /\
   (tc_overwrite c = false -> forall e ln, In (e, ln) (combine es per) ->
      lookup f0 (d ++ [ln]) = None /\ lookup (st_fs stf) (d ++ [ln]) <> None) /\
   (forall q, lookup f0 q <> None -> lookup (st_fs stf) q <> None).
@@ -557,3 +544,38 @@ Proof.
 Qed.
 
 End Tree.
+
+(* ---------- [tr_wfb] decides [tr_wf] ---------- *)
+Lemma nodupb_ok {A} (eqb : A -> A -> bool) (l : list A) :
+  (forall a b, eqb a b = true <-> a = b) -> tr_nodupb eqb l = true -> NoDup l.
+Proof.
+  intro He. induction l as [|x r IH]; intro Hn; [constructor|]. cbn [tr_nodupb] in Hn.
+  apply andb_true_iff in Hn as [H1 H2]. constructor; [|apply IH, H2].
+  intro Hin. apply negb_true_iff in H1. assert (existsb (eqb x) r = true); [|congruence].
+  apply existsb_exists. exists x. split; [exact Hin | apply He; reflexivity].
+Qed.
+
+Lemma first_top_ok : forall es seen, tr_first_top seen es = true ->
+  forall pre e post, es = pre ++ e :: post -> tl (te_rel e) <> [] ->
+  In (te_id e) seen \/ exists e', In e' pre /\ te_id e' = te_id e.
+Proof.
+  induction es as [|x es IH]; intros seen Hf pre e post Heq Ht; [destruct pre; discriminate|].
+  cbn [tr_first_top] in Hf. apply andb_true_iff in Hf as [H1 H2].
+  destruct pre as [|p pre]; cbn [app] in Heq; inversion Heq; subst.
+  - left. destruct (tl (te_rel e)); [congruence|]. apply existsb_exists in H1 as (i & Hi & Ei).
+    apply Z.eqb_eq in Ei. subst. exact Hi.
+  - destruct (IH _ H2 pre e post eq_refl Ht) as [[Hi|Hi]|(e' & Hi & Ee)].
+    + right. exists p. split; [left; reflexivity | exact Hi].
+    + left. exact Hi.
+    + right. exists e'. split; [right; exact Hi | exact Ee].
+Qed.
+
+Lemma tr_wfb_ok c es : tr_wfb c es = true -> tr_wf c es.
+Proof.
+  unfold tr_wfb, tr_wf. intro Hb. split.
+  - intros Eo Ej. rewrite Eo, Ej in Hb. apply andb_true_iff in Hb as [H1 H2]. split.
+    + apply (nodupb_ok _ _) in H1; [exact H1|]. intros [i1 t1] [i2 t2]. cbn [fst snd].
+      rewrite andb_true_iff, Z.eqb_eq, path_eqb_eq. split; [intros [-> ->]; reflexivity | intro Hx; inversion Hx; auto].
+    + intros pre e post Heq Ht. destruct (first_top_ok es [] H2 pre e post Heq Ht) as [[]|Hx]; exact Hx.
+  - intro Eo. rewrite Eo in Hb. apply (nodupb_ok _ _) in Hb; [exact Hb|]. intros a b. apply path_eqb_eq.
+Qed.
